@@ -25,6 +25,7 @@ def mc_configs(ctx):
                 ("one-open-autoX-openfail", nu.mc_consts(auto=("X",), mo=1, mcl=0, fail=1)),
                 ("pending-validation-2cuts-2reconnects", nu.mc_consts(mo=1, moy=0, mcl=0, cut=2, rec=2)),
                 ("retry-after-failure", nu.mc_consts(mo=2, moy=0, mcl=0)),
+                ("open-failure-then-reopen", nu.mc_consts(mo=2, moy=1, mcl=0, fail=1)),
                 ("foreign-dial-failure", nu.mc_consts(mo=1, mcl=0, fdf=1)),
                 ("foreign-dial-failure-cut-reconnect", nu.mc_consts(mo=1, moy=0, mcl=0, cut=1, rec=1, fdf=1)),
                 ("retry-after-failure-repaired", nu.mc_consts(mo=2, moy=0, mcl=0, fixed=set(nu.SIG_TAG.values()))),
@@ -40,6 +41,8 @@ def mc_configs(ctx):
             ("foreign-dial-failure", nu.mc_consts(mo=1, mcl=0, fdf=1)),
             ("foreign-dial-failure-x2", nu.mc_consts(mo=1, mcl=0, fdf=2)),
             ("close-then-reopen", nu.mc_consts(mo=2, moy=0, mcl=1)),
+            ("open-failure-then-reopen", nu.mc_consts(mo=2, moy=1, mcl=0, fail=1)),
+            ("open-failure-then-reopen-autoXY", nu.mc_consts(auto=("X", "Y"), mo=2, moy=1, mcl=0, fail=2)),
             ("foreign-dial-failure-close-cut", nu.mc_consts(mo=1, moy=0, mcl=1, cut=1, rec=1, fdf=1)),
             ("foreign-dial-failure-autoXY", nu.mc_consts(auto=("X", "Y"), mo=1, mcl=0, cut=1, fdf=1)),
             ("retry-after-failure-repaired", nu.mc_consts(mo=2, moy=0, mcl=0, fixed=set(nu.SIG_TAG.values()))),
@@ -77,6 +80,7 @@ def model_negative(ctx):
                               ("dial-failure-wipes-state", "NoUnknownPanic", nu.mc_consts(mo=1, mcl=0, fdf=1, mut="dialfail_wipes_state")),
                               ("dial-failure-wipes-open-stream", "QuiesceOK", nu.mc_consts(auto=("X", "Y"), mo=1, moy=0, mcl=0, fdf=1, mut="dialfail_wipes_state", tags=nu.TAGS | {"outbound-unexpected-closed", "outbound-negotiated-unexpected-closed", "inbound-negotiated-unexpected-closed", "negotiation-error-unexpected-closed", "established-peer-exists-closed"})),
                               ("flush-error-does-not-notify", "QuiesceOK", nu.mc_consts(mo=2, moy=0, mcl=1, mut="flush_error_no_notify")),
+                              ("open-failure-keeps-pending-id", "QuiesceOK", nu.mc_consts(mo=2, moy=1, mcl=0, fail=1, mut="openfail_keeps_pending")),
                               ("silent-task-end", "QuiesceOK", nu.mc_consts(auto=("X", "Y"), mo=1, mcl=0, cut=1, mut="silent_task_end"))]:
         r = tlc_mc(ctx, "NotifMC.tla", write_cfg(ctx, "neg_%s.cfg" % name, consts, ["SPECIFICATION Spec", "INVARIANTS MonOK NoUnknownPanic QuiesceOK", "CHECK_DEADLOCK FALSE"]),
                    workers=6, timeout=1200, expect_violation=True)
